@@ -854,7 +854,8 @@ static Outcome run_huge(const Case &c) {
 static rc::Gen<Case> gen_far(int tier) {
   return rc::gen::noShrink(rc::gen::exec([tier]() {
     Case c;
-    c.push_back(Op("far", {tier ? *range<int>(1, 2) : 1, *range<int>(-40, 40), *range<int>(0, 96), *range<int>(0, 96), *range<int>(0, 3), *range<int64_t>(0, 1000000), *range<int>(24, 27), 2}));
+    int kk = tier ? *rc::gen::weightedElement<int>({{3, 1}, {2, 2}, {1, 16}}) : 1;
+    c.push_back(Op("far", {kk, *range<int>(-40, 40), *range<int>(0, 96), *range<int>(0, 96), *range<int>(0, 3), *range<int64_t>(0, 1000000), *range<int>(24, 27), kk == 16 ? 0 : 2}));  // 64 GiB are only walked once (about two minutes)
     return c;
   }));
 }
@@ -873,7 +874,7 @@ static Outcome run_far1(const Case &c, int forced_mode) {
   Outcome o;
   if (c.empty() || c[0].a.size() < 7) return o;
   const auto &a = c[0].a;
-  uint64_t k = (uint64_t)std::max<int64_t>(1, std::min<int64_t>(a[0], 2));
+  uint64_t k = (uint64_t)std::max<int64_t>(1, std::min<int64_t>(a[0], 16));  // 16 * 2^32 bytes = 2^32 blocks
   int64_t delta = std::max<int64_t>(-64, std::min<int64_t>(a[1], 64));
   size_t l1 = (size_t)std::max<int64_t>(0, std::min<int64_t>(a[2], 96)), l2 = (size_t)std::max<int64_t>(0, std::min<int64_t>(a[3], 96));
   int ks = (int)(((a[4] % 4) + 4) % 4);
@@ -1019,7 +1020,7 @@ int main(int argc, char **argv) {
                   "second opinion for the remaining bulk (any disagreement is re-judged by the reference). Always non-trivial",
                   gen_huge, run_huge});
   subs.push_back({"far",
-                  "the stream is driven to byte position k*2^32 + delta (k = 1; 1..2 thorough; delta in -40..40) by in-place calls on 16..128 MiB of zeros, the blocks at both "
+                  "the stream is driven to byte position k*2^32 + delta (k = 1; thorough: 1, 2 or 16, i.e. block index 2^32; delta in -40..40) by in-place calls on 16..128 MiB of zeros, the blocks at both "
                   "ends of every call are judged by the FIPS-197 reference, then two calls of 0..96 bytes are judged byte by byte. Non-trivial: the calls continue past k*2^32",
                   gen_far, run_far});
   return pbt_main(argc, argv, subs);
